@@ -1,3 +1,72 @@
+import Invoke.Model.Exit
 import Driver.Util
-/-! stub: replaced by the owner of this driver -/
-def main : IO Unit := Drv.mainLoop (fun _ => "bad-op")
+/-! Line-protocol driver for C05 (`drv_exit`).
+
+    wait E <code>            → "<wait status> <returncodePty>"        (encodeWait + decoding)
+    wait S <sig> <core 0|1>  → same for a signal death
+    rc <status>              → returncodePty of an arbitrary status ("none" when neither exited nor signaled)
+    fin|join <threadExns> <watcherErrs> <timeoutSet 0|1> <timerFired 0|1> <code> <warn 0|1>
+                             → "<kind> <exited|none|-> <ok 0|1|->"   (sync path / Promise.join)
+    prog success | prog ue <n> | prog exit <code|none> <hasMessage 0|1> | prog parse  → exit status -/
+open Inv Inv.Generated Drv
+
+def showOptInt : Option Int → String
+  | some i => toString i
+  | none => "none"
+
+def b01 (s : String) : Bool := s == "1"
+
+def showKind : FinKind → String
+  | .threadException => "ThreadException"
+  | .failure => "Failure"
+  | .commandTimedOut => "CommandTimedOut"
+  | .unexpectedExit => "UnexpectedExit"
+  | .returned => "return"
+
+def showDecision (d : Decision) : String :=
+  match d.result? with
+  | none => showKind d.kind ++ " - -"
+  | some r => showKind d.kind ++ " " ++ showOptInt r.exited ++ " " ++ (if r.ok then "1" else "0")
+
+def finIn (th wa ts tf code warn : String) : Option FinIn := do
+  let th ← th.toNat?
+  let wa ← wa.toNat?
+  let code ← code.toInt?
+  pure { threadExns := th, watcherErrs := wa, timeoutSet := b01 ts, timerFired := b01 tf, code := code, warn := b01 warn, payload := 0 }
+
+def step (line : String) : String :=
+  match line.splitOn " " with
+  | ["wait", "E", c] =>
+    match c.toNat? with
+    | some c => let st := encodeWait (.exited c); toString st ++ " " ++ showOptInt (returncodePty st)
+    | none => "bad-arg"
+  | ["wait", "S", s, core] =>
+    match s.toNat? with
+    | some s => let st := encodeWait (.signaled s (b01 core)); toString st ++ " " ++ showOptInt (returncodePty st)
+    | none => "bad-arg"
+  | ["rc", st] =>
+    match st.toNat? with
+    | some st => showOptInt (returncodePty st)
+    | none => "bad-arg"
+  | ["fin", th, wa, ts, tf, code, warn] =>
+    match finIn th wa ts tf code warn with
+    | some i => showDecision (runSync i)
+    | none => "bad-arg"
+  | ["join", th, wa, ts, tf, code, warn] =>
+    match finIn th wa ts tf code warn with
+    | some i => showDecision (makePromise i).join
+    | none => "bad-arg"
+  | ["prog", "success"] => showOptInt (programExit exitCodeMap .success)
+  | ["prog", "parse"] => showOptInt (programExit exitCodeMap .parseError)
+  | ["prog", "ue", n] =>
+    match n.toInt? with
+    | some n => showOptInt (programExit exitCodeMap (.unexpectedExit n))
+    | none => "bad-arg"
+  | ["prog", "exit", c, m] =>
+    if c == "none" then showOptInt (programExit exitCodeMap (.exit none (b01 m)))
+    else match c.toInt? with
+      | some c => showOptInt (programExit exitCodeMap (.exit (some c) (b01 m)))
+      | none => "bad-arg"
+  | _ => "bad-op"
+
+def main : IO Unit := mainLoop step
